@@ -1,94 +1,93 @@
-import Dbg.Model.Slice
+import Dbg.Lemmas.SliceRefine
 /-! # C15 — String slices are exact, composable views
 
-View algebra, proved over the model of `DnaStringSlice` for an arbitrary backing string: every view
-operation is a re-indexing of `get`.  (`to_owned`, renderers and `hamming_dist` are folds over `get`; their
-list-level characterisation rests on the DnaString refinement of C14 and is listed as partial.) -/
+`Slice.seq d s` is the substring of the plain base vector `toSeq d` a view stands for (window
+`start .. start+length`, reverse-complemented when `is_rc`); `Slice.Valid d s` says the view lies
+inside its backing string (every constructor yields such views, and the interval assertions are exactly
+`a ≤ b ≤ length`).  For every well-formed backing string (C14's invariant) and every valid view:
+reads, renderings (bytes, ASCII, text, Debug), `to_owned`, `==` and `get_kmer` are those of `seq`;
+`slice`, `rc`, prefix/suffix/interval act on `seq` as `drop/take` and reverse complement — hence, by
+induction, so does any interleaving at any nesting depth (`C15_history`); `hamming_dist` is the number
+of differing positions for every length and offset and either orientation. -/
 namespace DnaStr.Slice
+open Kmer (Cfg St)
 
-/-- reading a sub-view = reading the view at the shifted position -/
-theorem get_slice (d : T) (s s' : Slice) (a b i : Nat) (h : s.slice a b = some s') (hi : i < b - a) :
-    get d s' i = get d s (a + i) := by
-  unfold slice at h
-  split at h
-  · rename_i hr
-    obtain ⟨h1, h2, h3⟩ := hr
-    by_cases hrc : s.isRc = true
-    · simp only [hrc, Bool.not_true, Bool.false_eq_true, if_false, Option.some.injEq] at h
-      subst h
-      simp only [get, hrc, Bool.not_true, Bool.false_eq_true, if_false]
-      have e1 : ¬ (s.start + s.length - b + (b - a) < 1 + i) := by omega
-      have e2 : ¬ (s.start + s.length < 1 + (a + i)) := by omega
-      simp only [e1, e2, if_false]
-      congr 2; omega
-    · have hrc' : s.isRc = false := by cases hh : s.isRc <;> simp_all
-      simp only [hrc', Bool.not_false, if_true, Option.some.injEq] at h
-      subst h
-      simp only [get, hrc', Bool.not_false, if_true]
-      congr 1; omega
-  · exact absurd h (by simp)
+/-- **C15 (observers).** -/
+theorem C15_observers (d : T) (h : Inv d) (s : Slice) (hv : Valid d s) :
+    (seq d s).length = s.length ∧ (∀ i, i < s.length → get d s i = (seq d s)[i]?) ∧
+    bytes d s = some (seq d s) ∧ ascii d s = some ((seq d s).map bitsToAscii) ∧
+    display d s = some ((seq d s).map bitsToBase) ∧ (s.length < 256 → debug d s = some ((seq d s).map bitsToBase)) ∧
+    (∃ d', toOwned d s = some d' ∧ Inv d' ∧ toSeq d' = seq d s) :=
+  ⟨seq_length d h s hv, get_spec d h s hv, bytes_spec d h s hv, ascii_spec d h s hv, display_spec d h s hv,
+   debug_spec d h s hv, toOwned_spec d h s hv⟩
 
-/-- a sub-view has the requested length and keeps the orientation -/
-theorem slice_length (s s' : Slice) (a b : Nat) (h : s.slice a b = some s') : s'.length = b - a ∧ s'.isRc = s.isRc := by
-  unfold slice at h
-  split at h
-  · by_cases hrc : s.isRc = true
-    · simp only [hrc, Bool.not_true, Bool.false_eq_true, if_false, Option.some.injEq] at h; subst h; simp [hrc]
-    · have hrc' : s.isRc = false := by cases hh : s.isRc <;> simp_all
-      simp only [hrc', Bool.not_false, if_true, Option.some.injEq] at h; subst h; simp [hrc']
-  · exact absurd h (by simp)
+/-- **C15 (equality)** of two views, of the same or different strings -/
+theorem C15_eq (d1 : T) (h1 : Inv d1) (s1 : Slice) (v1 : Valid d1 s1) (d2 : T) (h2 : Inv d2) (s2 : Slice) (v2 : Valid d2 s2) :
+    eq d1 s1 d2 s2 = some (decide (seq d1 s1 = seq d2 s2)) := eq_spec d1 h1 s1 v1 d2 h2 s2 v2
 
-/-- the interval assertions are exactly `a ≤ b ≤ length` -/
-theorem slice_isSome (s : Slice) (a b : Nat) : (s.slice a b).isSome ↔ (a ≤ b ∧ b ≤ s.length) := by
-  unfold slice
-  by_cases h : a ≤ s.length ∧ b ≤ s.length ∧ a ≤ b
-  · simp only [h, and_self, if_true]
-    by_cases hrc : s.isRc = true <;> simp [hrc] <;> omega
-  · simp only [h, if_false]; simp; omega
+/-- **C15 (constructors).** prefix / suffix / interval views of a string -/
+theorem C15_constructors (d : T) :
+    (∀ k, k ≤ d.len → ∃ s, prefix_ d k = some s ∧ Valid d s ∧ seq d s = (toSeq d).take k) ∧
+    (∀ k, k ≤ d.len → ∃ s, suffix_ d k = some s ∧ Valid d s ∧ seq d s = ((toSeq d).drop (d.len - k)).take k) ∧
+    (∀ a b, a ≤ b → b ≤ d.len → ∃ s, sliceOf d a b = some s ∧ Valid d s ∧ seq d s = ((toSeq d).drop a).take (b - a)) :=
+  ⟨prefix_seq d, suffix_seq d, sliceOf_seq d⟩
 
-/-- reading the reverse-complemented view at `i` = complement of the view at `length-1-i` -/
-theorem get_rc_fwd (d : T) (s : Slice) (i : Nat) (hf : s.isRc = false) (hi : i < s.length) :
-    get d s.rc i = (get d s (s.length - 1 - i)).map complement := by
-  simp only [get, rc, hf, Bool.not_false, Bool.not_true, Bool.false_eq_true, if_false, if_true]
-  have : ¬ (s.start + s.length < 1 + i) := by omega
-  simp only [this, if_false]
-  congr 2; omega
+/-- view operations of a history -/
+inductive VOp | slice (a b : Nat) | rc
 
-/-- `rc` twice is the identity on views -/
-theorem rc_rc (s : Slice) : s.rc.rc = s := by cases s; simp [rc]
+def runV (s : Slice) : VOp → Option Slice
+  | .slice a b => s.slice a b | .rc => some s.rc
+def specV (l : List Nat) : VOp → List Nat
+  | .slice a b => (l.drop a).take (b - a) | .rc => KSpec.rc l
+def VOp.ok (l : List Nat) : VOp → Prop
+  | .slice a b => a ≤ b ∧ b ≤ l.length | .rc => True
+def runAllV : List VOp → Slice → Option Slice
+  | [], s => some s
+  | op :: ops, s => (runV s op).bind (runAllV ops)
+def specAllV : List VOp → List Nat → List Nat
+  | [], l => l
+  | op :: ops, l => specAllV ops (specV l op)
+def okAllV : List VOp → List Nat → Prop
+  | [], _ => True
+  | op :: ops, l => op.ok l ∧ okAllV ops (specV l op)
 
-/-- `rc` keeps start and length -/
-theorem rc_fields (s : Slice) : s.rc.start = s.start ∧ s.rc.length = s.length ∧ s.rc.isRc = !s.isRc := by simp [rc]
+/-- **C15 (histories).** Any interleaving of `slice` and `rc`, to any depth, yields a valid view that
+    stands for the same operations applied to the plain base vector. -/
+theorem C15_history (d : T) (h : Inv d) (ops : List VOp) (s : Slice) (hv : Valid d s) (hok : okAllV ops (seq d s)) :
+    ∃ s', runAllV ops s = some s' ∧ Valid d s' ∧ seq d s' = specAllV ops (seq d s) := by
+  induction ops generalizing s with
+  | nil => exact ⟨s, rfl, hv, rfl⟩
+  | cons op ops ih =>
+    have step : ∃ s1, runV s op = some s1 ∧ Valid d s1 ∧ seq d s1 = specV (seq d s) op := by
+      cases op with
+      | slice a b =>
+        obtain ⟨s1, e, v, t⟩ := slice_spec d h s hv a b hok.1.1 (by rw [← seq_length d h s hv]; exact hok.1.2)
+        exact ⟨s1, e, v, t⟩
+      | rc => exact ⟨s.rc, rfl, (rc_spec d h s hv).1, (rc_spec d h s hv).2⟩
+    obtain ⟨s1, e1, v1, t1⟩ := step
+    obtain ⟨s2, e2, v2, t2⟩ := ih s1 v1 (by rw [t1]; exact hok.2)
+    exact ⟨s2, by simp only [runAllV, e1, Option.bind_some]; exact e2, v2, by rw [t2, t1]; rfl⟩
 
-/-- complement is an involution on bases and equals `3 - b` -/
-theorem complement_spec : ∀ b : Fin 4, complement b.val = 3 - b.val ∧ complement (complement b.val) = b.val := by decide
+/-- the interval assertions are exactly `a ≤ b ≤ length` (outside them `slice` panics) -/
+theorem C15_slice_guard (s : Slice) (a b : Nat) : (s.slice a b).isSome ↔ (a ≤ b ∧ b ≤ s.length) := slice_isSome s a b
 
-/-- views made directly from the string -/
-theorem sliceOf_spec (d : T) (a b : Nat) (s : Slice) (h : sliceOf d a b = some s) (i : Nat) :
-    s.length = b - a ∧ s.isRc = false ∧ get d s i = DnaStr.get d (i + a) := by
-  unfold sliceOf at h
-  split at h
-  · simp only [Option.some.injEq] at h; subst h; simp [get]
-  · exact absurd h (by simp)
+/-- **C15 (k-mers).** `get_kmer(pos)` of a view spells bases `pos..pos+K` of the view, in either orientation -/
+theorem C15_getKmer (c : Cfg) (hc : c.WF) (hw : c.w ∈ [8, 16, 32, 64, 128]) (d : T) (h : Inv d) (s : Slice) (hv : Valid d s)
+    (pos : Nat) :
+    (pos + c.K ≤ s.length → ∃ k, getKmer c d s pos = some k ∧ Kmer.Inv c k ∧ Kmer.toSeq c k = ((seq d s).drop pos).take c.K) ∧
+    (¬ pos + c.K ≤ s.length → getKmer c d s pos = none) :=
+  ⟨getKmer_spec c hc hw d h s hv pos, getKmer_guard c d s pos⟩
 
-theorem prefix_spec (d : T) (k : Nat) (s : Slice) (h : prefix_ d k = some s) (i : Nat) :
-    s.length = k ∧ s.isRc = false ∧ get d s i = DnaStr.get d i := by
-  unfold prefix_ at h
-  split at h
-  · simp only [Option.some.injEq] at h; subst h; simp [get]
-  · exact absurd h (by simp)
+/-- **C15 (Hamming distance).** For two equal-length views — any lengths (block path and tail), any
+    offsets, either orientation — `hamming_dist` is the number of differing positions; unequal lengths are refused. -/
+theorem C15_hamming (d1 : T) (h1 : Inv d1) (s1 : Slice) (v1 : Valid d1 s1) (d2 : T) (h2 : Inv d2) (s2 : Slice) (v2 : Valid d2 s2) :
+    (s1.length = s2.length → hammingDist d1 s1 d2 s2 = some (KSpec.hamming (seq d1 s1) (seq d2 s2))) ∧
+    (s1.length ≠ s2.length → hammingDist d1 s1 d2 s2 = none) :=
+  ⟨hammingDist_spec d1 h1 s1 v1 d2 h2 s2 v2, hammingDist_guard d1 s1 d2 s2⟩
 
-theorem suffix_spec (d : T) (k : Nat) (s : Slice) (h : suffix_ d k = some s) (i : Nat) :
-    s.length = k ∧ s.isRc = false ∧ get d s i = DnaStr.get d (i + (d.len - k)) := by
-  unfold suffix_ at h
-  split at h
-  · simp only [Option.some.injEq] at h; subst h; simp [get]
-  · exact absurd h (by simp)
-
-/-- the repaired `Debug` renders through `get`, like `Display`, below the summary threshold (D2) -/
-theorem debug_eq_display (d : T) (s : Slice) (h : s.length < 256) : debug d s = display d s := by
-  unfold debug display
-  have : s.length < Gen.sliceDebugLimit := h
-  simp [this]
+/-- non-vacuity: a nested, twice reverse-complemented view of a 1100-base string, long enough for the block path -/
+example : okAllV [.slice 3 1090, .rc, .slice 10 1060, .rc, .rc] (List.replicate 1100 1) := by
+  simp only [okAllV, VOp.ok, specV, KSpec.rc_length, List.length_take, List.length_drop, List.length_replicate]
+  decide
 
 end DnaStr.Slice
